@@ -1,8 +1,9 @@
 """C10 — pollers report exactly the registered-and-ready descriptors, to the registering component's channel; all three agree.
 
 Engine: SimNet with the real kernel.  A run draws ONE history over a pool of <= 5 real AF_UNIX socket pairs (socket.socketpair(), not
-through circuits): registration operations on the poller-side end (addReader / addWriter for a role not held, removeReader / removeWriter,
-discard, late discard of a closed descriptor), life-cycle operations (close WITHOUT discard, discard + close, open a new pair - the kernel
+through circuits): registration operations on the poller-side end (addReader / addWriter - for a role not held, and AGAIN for a role that is
+already held, by the same source component or by another one -, removeReader / removeWriter, discard, late discard of a closed
+descriptor), life-cycle operations (close WITHOUT discard, discard + close, open a new pair - the kernel
 hands out the lowest free number again) and readiness operations driven from the other end (peer writes -> readable, the application
 drains -> not readable, fill the send buffer -> not writable, peer drains -> writable again, peer shuts down / closes -> hang-up).
 The same history is executed under Select, Poll and EPoll (fresh manager and sockets each time, so descriptor numbers repeat).
@@ -17,7 +18,12 @@ Oracle, per iteration and per descriptor object (statement clauses quoted):
     iteration; events outside registered-and-ready are flagged at once (C10/unexpected/...); an expected event that is absent may come one
     iteration later (ONE grace iteration per operation: Select spends an iteration on cleaning up after a closed descriptor; iterations
     whose poll call was interrupted by an injected EINTR do not count), after that it is a violation (C10/missing/...);
-  * "addressed to the channel of the component that registered it" (C10/channel/...);
+  * "addressed to the channel of the component that registered it" (C10/channel/...); when several components added the descriptor (repeated
+    add by another source) the channel of any of them is accepted;
+  * repeated add: the registration model is the SET the statement talks about ("currently registered for reading"): a role is held after
+    any number of addReader / addWriter calls until ONE removeReader / removeWriter / discard; a readiness event for a role that was given
+    up after having been added more than once gets its own shape (C10/unexpected/<event>/duplicate-add-then-<discard|remove>: the common
+    BasePoller bookkeeping decides it, so the key does not name the poller);
   * "Discarded or closed descriptors produce no further events even when their number is reused by a new descriptor": no event may name
     a discarded object; for an object closed WITHOUT discard no _read/_write may name it (C10/closed/<state of the object>/<poller>);
   * deliberate, narrow relaxation: for a descriptor whose peer has hung up or reset, `_disconnect` in place of the readiness events is
@@ -58,14 +64,17 @@ STATE_MEASURE = '(poller, roles held, readable, writable, peer hung up, last reg
 REAL = ['circuits.core.pollers.BasePoller/Select/Poll/EPoll (addReader, addWriter, removeReader, removeWriter, discard, _updateRegistration, _generate_events, _process)',
         'circuits.core.manager.Manager.tick', 'Linux AF_UNIX socket pairs, select/poll/epoll, descriptor allocation']
 STUBBED = ['select module inside circuits.core.pollers -> zero-timeout shim that can raise EINTR', 'the components owning the descriptors are dummies that only carry a channel']
-ASSUMPTIONS = ['one source component per descriptor at a time and no duplicate add of a role (the statement does not define either)',
+ASSUMPTIONS = ['the two roles of a descriptor are registered by one source component at a time (the statement does not define per-role owners)',
+               'a role is held after any number of adds until one remove / discard (set model; the statement says "currently registered", it does not count adds); '
+               'after a repeated add by ANOTHER component the events may be addressed to the channel of either component',
                'an expected event may be one loop iteration late (never more); EINTR iterations report nothing',
                'for a descriptor closed without discard a `_disconnect` naming it is accepted (Poll notices POLLNVAL that way); _read/_write are not',
                'after the peer hung up: `_disconnect` instead of readiness is accepted, and silence after a reported `_disconnect` - except while unread data is pending '
                'on a descriptor registered for reading (then _read is demanded and _disconnect forbidden); a descriptor registered ONLY for writing may be '
                'disconnected on hang-up even with unread input (the poller was not asked about its readability)',
-               '`_error` events are not judged']
-PROBES = ['expected-read', 'expected-write', 'hup-with-unread-data', 'peer-writes-then-closes', 'not-writable-buffer-full', 'remove-one-role-other-stays', 're-add-after-discard', 'close-without-discard',
+               '`_error` events are not judged; an exception out of discard() of a descriptor that was closed earlier without discard is not judged either (not an event)']
+PROBES = ['expected-read', 'expected-write', 'hup-with-unread-data', 'peer-writes-then-closes', 'not-writable-buffer-full', 'remove-one-role-other-stays', 're-add-after-discard', 'duplicate-add-same-source', 'duplicate-add-other-source',
+          'remove-after-duplicate-add', 'discard-after-duplicate-add', 'close-without-discard',
           'fault:fd_reuse', 'fd-reuse-of-registered-closed', 'fault:peer_close', 'fault:poll_eintr', 'hup-disconnect-accepted', 'late-discard',
           'grace-iteration', 'pollers-compared', 'cfg:Select', 'cfg:Poll', 'cfg:EPoll']
 TIERS = {
@@ -77,9 +86,11 @@ POLLERS = [Select, Poll, EPoll]
 NSLOTS = 5
 NSRC = 3
 OPS = ['addReader', 'addWriter', 'removeReader', 'removeWriter', 'discard', 'close', 'discard_close', 'peer_write', 'drain', 'fill', 'peer_drain',
-       'peer_close', 'peer_shut', 'late_discard', 'idle', 'peer_reset', 'reopen', 'peer_write_close']
-WEIGHTS = [8, 7, 4, 4, 3, 3, 2, 6, 3, 2, 2, 2, 1, 2, 2, 1, 3, 3]
+       'peer_close', 'peer_shut', 'late_discard', 'idle', 'peer_reset', 'reopen', 'peer_write_close', 'add_again']
+WEIGHTS = [8, 7, 4, 4, 3, 3, 2, 6, 3, 2, 2, 2, 1, 2, 2, 1, 3, 3, 4]
 AVOID_CLOSE = 'closed-without-discard'      # marker inside keys of findings triggered by closing a registered descriptor without discard
+AVOID_DUP = 'duplicate-add'                 # marker inside keys of findings triggered by adding a role that is already held
+ROLE_OF = {'_read': 'reader', '_write': 'writer'}
 
 
 class Stop(Exception):
@@ -127,7 +138,7 @@ def gen_plan(ch, cfg):
     return plan
 
 
-def run_history(ctx, plan, P, avoid_close):
+def run_history(ctx, plan, P, avoid_close, avoid_dup=False):
     simnet.reset(ctx)
     name = P.__name__
     ctx.stat('cfg:' + name)
@@ -177,7 +188,7 @@ def run_history(ctx, plan, P, avoid_close):
         b.setblocking(False)
         a.setsockopt(_socket.SOL_SOCKET, _socket.SO_SNDBUF, 4608)
         d = dict(ord=len(descs), a=a, b=b, no=a.fileno(), reader=False, writer=False, src=None, hup=False, shut=False, disc_reported=False, pending=0, state='live',
-                 lastop='open', was_registered=False, discarded=False)
+                 lastop='open', was_registered=False, discarded=False, srcs=[], last_src=None, dup=dict(reader=0, writer=0), gave_up={})
         descs.append(d)
         slots[i] = d
         old = numbers.get(d['no'])
@@ -206,6 +217,21 @@ def run_history(ctx, plan, P, avoid_close):
             d['b'].close()
         slots[i] = None
 
+    def note_discard(d):
+        for role in ('reader', 'writer'):
+            if d[role] and d['dup'][role]:
+                ctx.stat('discard-after-duplicate-add')
+                d['gave_up'][role] = 'discard'
+
+    def dup_shape(d, evname):
+        """('duplicate-add-then-discard' / '...-remove', role) when `evname` is about a role that is not held any more but had been added more than once
+        (a _disconnect: about a descriptor that holds no role any more)"""
+        roles = [ROLE_OF[evname]] if evname in ROLE_OF else [] if registered(d) else ['reader', 'writer']
+        for role in roles:
+            if not d[role] and d['gave_up'].get(role):
+                return '%s-then-%s' % (AVOID_DUP, d['gave_up'][role]), role
+        return None
+
     def do(no, op):
         kind, i, si, peer_too = op
         d = slots[i]
@@ -216,23 +242,45 @@ def run_history(ctx, plan, P, avoid_close):
                 x = dead[-1]
                 tr('discard(%s) - the descriptor was closed earlier without discard', dname(x))
                 ctx.stat('late-discard')
-                poller.discard(x['a'])
+                try:
+                    poller.discard(x['a'])
+                except ValueError as e:
+                    # not judged (the statement is about events): Poll / EPoll refuse to register a closed object again when they think a role is left
+                    ctx.stat('late-discard-raised')
+                    tr('    (discard raised %s: %s)', type(e).__name__, e)
                 x['discarded'] = x['late'] = True
                 return
         if d is None:
             open_pair(i)
             return
         a, b = d['a'], d['b']
+        if kind == 'add_again':             # repeat the add of a role the descriptor holds (a plain addReader when it holds none)
+            kind = 'addWriter' if d['writer'] and (not d['reader'] or peer_too) else 'addReader'
         if kind in ('addReader', 'addWriter'):
             role = 'reader' if kind == 'addReader' else 'writer'
             if d[role]:
-                return tr('(%s: %s already held by %s)', kind, role, dname(d))
+                # repeated add of a role that is held: by the source drawn with the operation (the holder or another component)
+                if avoid_dup:
+                    return tr('(%s: %s already held by %s)', kind, role, dname(d))
+                ctx.stat('duplicate-add-same-source' if si == d['last_src'] else 'duplicate-add-other-source')
+                getattr(poller, kind)(srcs[si], a)
+                d['dup'][role] += 1
+                if si not in d['srcs']:
+                    d['srcs'].append(si)
+                d['last_src'] = si
+                d['lastop'] = kind + '-again'
+                return tr('%s(src%d, %s) AGAIN - %s already held (added by %s)', kind, si, dname(d), role, '/'.join('src%d' % x for x in d['srcs']))
             if not registered(d):
                 d['src'] = si                       # one source per descriptor at a time
+                d['srcs'] = []
                 if d['discarded']:
                     ctx.stat('re-add-after-discard')
             getattr(poller, kind)(srcs[d['src']], a)
+            if d['src'] not in d['srcs']:
+                d['srcs'].append(d['src'])
+            d['last_src'] = d['src']
             d[role] = True
+            d['gave_up'].pop(role, None)
             d['discarded'] = False
             d['lastop'] = kind
             tr('%s(src%d, %s)', kind, d['src'], dname(d))
@@ -240,11 +288,15 @@ def run_history(ctx, plan, P, avoid_close):
             role = 'reader' if kind == 'removeReader' else 'writer'
             if d[role] and d['writer' if role == 'reader' else 'reader']:
                 ctx.stat('remove-one-role-other-stays')
+            if d[role] and d['dup'][role]:
+                ctx.stat('remove-after-duplicate-add')
+                d['gave_up'][role] = 'remove'
             getattr(poller, kind)(a)
             tr('%s(%s)%s', kind, dname(d), '' if d[role] else ' - role not held')
             d[role] = False
             d['lastop'] = kind
         elif kind == 'discard':
+            note_discard(d)
             poller.discard(a)
             tr('discard(%s)', dname(d))
             d['reader'] = d['writer'] = False
@@ -252,6 +304,7 @@ def run_history(ctx, plan, P, avoid_close):
             d['lastop'] = kind
         elif kind in ('close', 'discard_close', 'reopen'):
             if kind == 'discard_close' or (avoid_close and registered(d)):
+                note_discard(d)
                 poller.discard(a)
                 d['reader'] = d['writer'] = False
                 d['discarded'] = True
@@ -374,6 +427,14 @@ def run_history(ctx, plan, P, avoid_close):
                     fail('C10/closed/%s/%s' % (what, name), '%s fired for %s, which is %s%s' % (
                         evname, dname(d), what, ' (its number has been handed out again%s)' % (
                             ' to %s' % dname(numbers[d['no']]) if numbers[d['no']] is not d else ' to the peer end of a new pair') if d.get('reused') else ''))
+                stale = dup_shape(d, evname)
+                if stale:
+                    # "iff it is currently registered for reading (writing)" / "Discarded ... descriptors produce no further events": one remove / discard ends
+                    # the registration however often the role was added
+                    fail('C10/unexpected/%s/%s' % (evname, stale[0]), '%s fired for %s (addressed to %s): the %s role was added %d times and then given up by one %s; '
+                         'the descriptor is %s' % (evname, dname(d), ', '.join('the Manager object' if c is m else repr(c) for c in chans), stale[1],
+                                                  1 + d['dup'][stale[1]], d['gave_up'][stale[1]],
+                                                  'registered as ' + '+'.join(r for r in ('reader', 'writer') if d[r]) if registered(d) else 'not registered at all'))
                 if not registered(d):
                     what = 'discarded' if d['discarded'] and d['lastop'] == 'discard' else 'not-registered-after-%s' % d['lastop']
                     fail('C10/unexpected/%s/%s/%s' % (evname, what, name), '%s fired for %s, which is %s' % (evname, dname(d), what))
@@ -392,13 +453,15 @@ def run_history(ctx, plan, P, avoid_close):
                     fail('C10/unexpected/%s/%s/%s' % (evname, why, name), '%s fired for %s: roles held %s, kernel says %s' % (
                         evname, dname(d), '+'.join(r for r in ('reader', 'writer') if d[r]) or 'none', sorted(exp.get(d['ord'], ())) or 'not ready'))
                 if evname in got.get(d['ord'], ()):
-                    fail('C10/duplicate/%s/%s' % (evname, name), '%s fired twice for %s in one iteration' % (evname, dname(d)))
+                    again = d['dup'].get(ROLE_OF.get(evname))      # (Select hands a list with the descriptor in it twice to the kernel: own shape)
+                    fail('C10/duplicate/%s/%s%s' % (evname, 'after-%s/' % AVOID_DUP if again else '', name), '%s fired twice for %s in one iteration%s' % (
+                        evname, dname(d), ' (the %s role was added %d times)' % (ROLE_OF[evname], 1 + again) if again else ''))
                 got.setdefault(d['ord'], []).append(evname)
                 # "addressed to the channel of the component that registered it"
-                want = srcs[d['src']].channel
-                if tuple(chans) != (want,):
-                    fail('C10/channel/%s/after-%s/%s' % (evname, d['lastop'], name), '%s for %s (registered by src%d) was addressed to %r instead of %r' % (
-                        evname, dname(d), d['src'], chans, want))
+                want = [srcs[x].channel for x in d['srcs']]      # more than one only after a repeated add by another component: either is accepted
+                if len(chans) != 1 or chans[0] not in want:
+                    fail('C10/channel/%s/after-%s/%s' % (evname, d['lastop'], name), '%s for %s (registered by %s) was addressed to %r instead of %s' % (
+                        evname, dname(d), '/'.join('src%d' % x for x in d['srcs']), chans, ' or '.join(repr(w) for w in want)))
             if pol.fired:
                 tr('    (poll call interrupted: EINTR)')
                 continue
@@ -460,9 +523,10 @@ def run_one(ctx):
 def _run(ctx):
     plan = gen_plan(ctx.ch, ctx.cfg)
     avoid_close = any(AVOID_CLOSE in k for k in ctx.avoid)
+    avoid_dup = any(AVOID_DUP in k for k in ctx.avoid)
     results = []
     for pi in plan['order']:
-        r = run_history(ctx, plan, POLLERS[pi], avoid_close)
+        r = run_history(ctx, plan, POLLERS[pi], avoid_close, avoid_dup)
         results.append(r)
         if r['failed']:
             break
